@@ -20,6 +20,9 @@ pub const NAMES: &[&str] = ALL_ROUTES;
 const TEXT_SERS: &[&str] = &["toml::to_string", "toml::to_string_pretty", "toml_edit::ser::to_string", "toml_edit::ser::to_string_pretty", "toml_edit::ser::to_document"];
 
 pub fn generate(rng: &mut Rng, tier: &str) -> Scenario {
+    if rng.chance(1, 8) {
+        return crate::realfam::generate("C13", rng);
+    }
     if rng.chance(2, 5) {
         return generate_b(rng, tier);
     }
@@ -62,6 +65,7 @@ pub fn execute(sc: &Scenario, verbose: bool) -> RunOut {
     match sc.workload.as_str() {
         "A" => exec_a(sc, verbose, &mut out),
         "B" => exec_b(sc, verbose, &mut out),
+        "R" => crate::realfam::execute("C13", sc, verbose, &mut out),
         w => out.harness_error = Some(format!("C13: unknown workload {w}")),
     }
     out
